@@ -38,12 +38,13 @@ FORMULAS = {
     "C12": {"inv": ["C12_Sets"], "props": ["C12_Partition", "C12_Quarantine", "C12_Removal", "C12_NoRevival"]},
     "C13": {"inv": [], "props": ["C13_Publish", "C13_OnlyEval"], "nogc": ["C13_Exact"]},
     "C16": {"inv": ["C16_Isolation"], "props": ["C16_Reject"]},
-    "C18": {"inv": [], "props": ["C18_Catchup", "C18_NoPanic"]},
+    "C18": {"inv": ["C18_LiveNeedsHeartbeats"], "props": ["C18_Catchup", "C18_NoPanic"]},
     "C20": {"inv": [], "props": ["C20_Callback"]},
 }
 ALL_INV = ["C02_NoResurrection", "C03_Integrity", "C04_NoPanic", "C05_OwnerAhead",
            "WellFormedCopies", "C12_Sets", "C16_Isolation"]
 MODEL_ONLY_INV = ["NoStaleTombstones"]
+TRACE_ONLY_INV = ["C18_LiveNeedsHeartbeats"]    # defined in TraceGossip / ObserveGossip (needs the evid ghost)
 ALL_PROPS = ["C04_Monotonic", "C04_FreshVersion", "C05_OwnUntouched", "C20_Callback",
              "C07_Structure", "C12_Partition", "C12_Quarantine", "C12_Removal", "C12_NoRevival",
              "C13_Publish", "C13_OnlyEval", "C16_Reject", "C18_Catchup", "C18_NoPanic", "C01_ConvergedReal"]
@@ -260,7 +261,7 @@ def validate_batch(trace_path, consts, label, nogc, excluded=(), max_rounds=6):
     (n_traces, n_events, accepted_count, rejected=[(lines, event_index_in_trace, why)])."""
     props = [f for f in ALL_PROPS + ["C07_Size"] + (["C13_Exact"] if nogc else []) if f not in excluded]
     cfg = vlib.write_cfg(tmp(f"trace_{label}.cfg"), "TraceSpec", consts,
-                         invariants=[f for f in ALL_INV if f not in excluded],
+                         invariants=[f for f in ALL_INV + TRACE_ONLY_INV if f not in excluded],
                          properties=props, view="TraceView", post="TraceAccepted")
     traces = split_traces(trace_path)
     total = len(traces)
